@@ -99,6 +99,15 @@ def impl_main(payload):
             return [int(e.operator), int(e.operands[0])]
         return [int(e.operator), [ser(o) for o in e.operands]]
 
+    ARITY2 = {2, 3, 4, 5, 10, 13}
+
+    def arity_ok(t):
+        if t[0] in (-1, 0, 1):
+            return True
+        n = len(t[1])
+        ok = (n == 1 and t[0] not in ARITY2) or (n == 2 and t[0] in ARITY2) or (n >= 3 and t[0] in (2, 4))
+        return ok and all(arity_ok(c) for c in t[1])
+
     def admissible_values(stack, x, cs):
         """row values by an independent evaluator; a point is admissible when every utilized intermediate is finite and moderate"""
         util = sb.get_utilized_commands(np.array(stack, dtype=int))
@@ -176,6 +185,8 @@ def impl_main(payload):
         exp.append(enc_tree(ser(e1)))
         cases.append(dict(kind=2, tree=ser(e2)))
         exp.append(enc_tree(ser(e3)))
+        if not arity_ok(ser(e3)):
+            stats["arity_outside"] = stats.get("arity_outside", 0) + 1      # outside the hypothesis of the build_agraph_stack theorem
         cases.append(dict(kind=3, tree=ser(e3)))
         exp.append([int(v) for r in np.asarray(out).reshape(-1, 3).tolist() for v in r])
         stats["stages"] += 4
